@@ -156,6 +156,8 @@ func runC06(c *Ctx) {
 	ruleGates(c, a, "GATE7")
 	ruleGates(c, a, "GATE8")
 	rulePreAuthRaceFree(c, a)
+	// "replays" are absorbed wherever and whenever they are presented: one history for the process, kept across reloads
+	ruleOneCache(c)
 	// "at the same deadline whatever ...": the handler does not end a drain when its context is cancelled (listener closed on reload)
 	ruleSurvive(c)
 }
@@ -613,6 +615,28 @@ func ruleOneCache(c *Ctx) {
 			sites = append(sites, s)
 		}
 	}
+	for _, s := range sites {
+		arg := eng.Arg(s.Ins.(ssa.CallInstruction).Common(), 0)
+		plain := true
+		var walk func(v ssa.Value, d int)
+		walk = func(v ssa.Value, d int) {
+			if d > 12 {
+				return
+			}
+			switch x := p.Resolve(v).(type) {
+			case *ssa.BinOp:
+				plain = false
+			case *ssa.Convert:
+				walk(x.X, d+1)
+			case *ssa.Phi:
+				for _, e := range x.Edges {
+					walk(e, d+1)
+				}
+			}
+		}
+		walk(arg, 0)
+		c.CheckAt("ONECACHE", "history-size-is-the-configured-size", s.Ins, plain, "the replay history is created with a size computed from the configured one (the cache only promises the most recent `capacity` handshakes, its archive is discarded at every rotation): fewer handshakes than configured are remembered")
+	}
 	c.Check("ONECACHE", "one-replay-history-per-process", "-", len(sites) == 1, fmt.Sprintf("%d NewReplayCache call sites in the server command (must be exactly 1: a second history would let a handshake be replayed on another listener, service or config generation)", len(sites)))
 	// the field holding it
 	field := ""
@@ -622,7 +646,7 @@ func ruleOneCache(c *Ctx) {
 		}
 	}
 	if field == "" {
-		c.Undecided("ONECACHE", "anchor:server-replay-field", "-", "the server command has no struct with a ReplayCache field")
+		c.Check("ONECACHE", "history-lives-in-the-server-object", "-", false, "the long-lived server object holds no replay history: a history created anywhere else (per configuration, per service) does not survive a reload and is not shared by all listeners")
 		return
 	}
 	for _, st := range p.FieldStores(mainM(c).serverT, field) {
